@@ -339,10 +339,20 @@ func c03GenEvents(t *rapid.T, c *c03Case, totalWrites int, targets []uint32) {
 func TestC03Detection(t *testing.T) {
 	kit.Run(t, kit.Spec[c03Case]{
 		Prop: "C03",
-		Rule: "a packet-scan command (arp, icmp, udp, tcp syn/fin/null/xmas/--flags) in a CLI mode (subnet; file of pairs; file x ports; >200 ranges => chunks; raw-IP mode) on the virtual wire, which runs the exact BPF text sx installs; 1..40 frames injected as reactions to probe writes (or right after the filter is installed): own-protocol frames whose source is a target / a subnet edge (base-1, base, last, last+1) / anything and whose source port is inside a range of the open chunk / start-1 / end+1 / a range of another chunk / anything, with all TCP flag sets, IP and TCP options, payloads, every ICMP type/code, TTLs; and other traffic (udp, ipv6, vlan, IP-in-IP, other protocols, ARP). All well-formed and unfragmented. Oracle: shape.Classify (independent decoder) decides which injected frames must be reported; stdout JSON records = one per such frame with that frame's fields (multiset; documented don't-cares optional). A verdict that fails with the short exit delay is re-decided with a 3 s exit delay (timing artefacts are discarded as inconclusive). non-trivial: >=1 reply-shaped and >=1 non-reply frame; distinct by case",
+		Rule: "a packet-scan command (arp, icmp, udp, tcp syn/fin/null/xmas/--flags; icmp and udp also with probe-shaping options --type/--code/--ttl/--payload/--ipflags) in a CLI mode (subnet; file of pairs; file x ports; >200 ranges => chunks; raw-IP mode) on the virtual wire, which runs the exact BPF text sx installs; 1..40 frames injected as reactions to probe writes (or right after the filter is installed): own-protocol frames whose source is a target / a subnet edge (base-1, base, last, last+1) / anything and whose source port is inside a range of the open chunk / start-1 / end+1 / a range of another chunk / anything, with all TCP flag sets, IP and TCP options, payloads, every ICMP type/code, TTLs; and other traffic (udp, ipv6, vlan, IP-in-IP, other protocols, ARP). All well-formed and unfragmented. Oracle: shape.Classify (independent decoder) decides which injected frames must be reported; stdout JSON records = one per such frame with that frame's fields (multiset; documented don't-cares optional). A verdict that fails with the short exit delay is re-decided with a 3 s exit delay (timing artefacts are discarded as inconclusive). non-trivial: >=1 reply-shaped and >=1 non-reply frame; distinct by case",
 		Gen: func(t *rapid.T) c03Case {
 			c := c03Case{Cmd: rapid.SampledFrom(c01PacketCmds).Draw(t, "cmd"), Seed: rapid.Int64().Draw(t, "seed"), ExitMs: 120}
 			base := strings.Fields(c.Cmd)[0]
+			// options that shape the PROBE must not change what counts as a reply
+			if base == "icmp" && rapid.Bool().Draw(t, "icmp-opts") {
+				c.Cmd += fmt.Sprintf(" --type %d", rapid.SampledFrom([]int{13, 0, 15, 17, 3, 8, 42, 255}).Draw(t, "type"))
+				if rapid.Bool().Draw(t, "with-code") {
+					c.Cmd += fmt.Sprintf(" --code %d", rapid.SampledFrom([]int{0, 1, 3, 255}).Draw(t, "code"))
+				}
+			}
+			if (base == "icmp" || base == "udp") && rapid.IntRange(0, 2).Draw(t, "probe-opts") == 0 {
+				c.Cmd += rapid.SampledFrom([]string{" --ttl 1", " --ttl 255", ` --payload \x00\x01abc`, " --ipflags mf", " --ttl 7 --payload x"}).Draw(t, "opt")
+			}
 			c.Spec = genSpec(t, cmdPortless(base), base != "arp", 1500)
 			c.Spec.Exclude = nil
 			if base != "arp" {
@@ -372,6 +382,8 @@ type c03BurstCase struct {
 	Replies int    `json:"replies_in_one_burst"`
 	SlowUs  int    `json:"consumer_pause_us_per_256_bytes"`
 	Seed    int64  `json:"rand_seed"`
+	// C06: every reply is followed by a runt (the same frame cut inside its headers) that must not produce a record
+	Runts bool `json:"runt_after_every_reply,omitempty"`
 }
 
 func c03BurstCheck(c c03BurstCase) *kit.Verdict {
@@ -380,6 +392,7 @@ func c03BurstCheck(c c03BurstCase) *kit.Verdict {
 	v.Label("scan=%s", kind)
 	want := map[string]int{}
 	var frames [][]byte
+	runts := 0
 	for i := 0; i < c.Replies; i++ {
 		src := uint32(10<<24|9<<16) + uint32(i%4)
 		// distinct records: vary ttl / port / mac with i
@@ -422,6 +435,19 @@ func c03BurstCheck(c c03BurstCase) *kit.Verdict {
 		}
 		want[key]++
 		frames = append(frames, fr)
+		if c.Runts {
+			cut := 14 + 4 + i%24 // somewhere between the end of the link header and the end of the transport header
+			if cut < len(fr) {
+				runt := append([]byte(nil), fr[:cut]...)
+				if verdict, _ := shape.Classify(s, runt); verdict == shape.No {
+					frames = append(frames, runt)
+					runts++
+				}
+			}
+		}
+	}
+	if c.Runts {
+		v.Label("runts=%d", runts/500*500)
 	}
 	fired := false
 	sc := vwire.Scenario{OnWrite: func(w *vwire.World, s *vwire.Socket, wr *vwire.Write) error {
@@ -491,5 +517,141 @@ func TestC03Burst(t *testing.T) {
 				SlowUs: rapid.SampledFrom([]int{50, 120, 300}).Draw(t, "slow"), Seed: rapid.Int64().Draw(t, "seed")}
 		},
 		Check: c03BurstCheck,
+	})
+}
+
+// ---------------------------------------------------------------- chunked port scans under continuous reply traffic
+//
+// A scan of more than 200 port ranges runs chunk after chunk, each with its own socket and filter. Replies for ports
+// of EVERY chunk keep arriving during the whole scan (answers to the current chunk, stragglers of earlier ones, noise
+// for later ones). Whatever the chunks do, a record must be one of the injected frames, field by field.
+
+type c03ChunkCase struct {
+	Cmd      string `json:"command"`
+	NRanges  int    `json:"port_ranges"`
+	PerWrite int    `json:"frames_injected_per_probe"`
+	Seed     int64  `json:"rand_seed"`
+}
+
+func c03ChunkFlags(port uint16) uint16 {
+	f := []uint16{wire.RST | wire.ACK, wire.SYN | wire.ACK, wire.RST, wire.FIN | wire.ACK, wire.ACK, wire.PSH | wire.ACK, wire.SYN | wire.ACK | wire.ECE, wire.FIN | wire.PSH | wire.URG}
+	return f[int(port)%len(f)]
+}
+
+func c03ChunkCheck(c c03ChunkCase) *kit.Verdict {
+	v := &kit.Verdict{Units: c.NRanges}
+	kind := scanKind(c.Cmd)
+	v.Label("scan=%s", kind)
+	nchunks := (c.NRanges + 199) / 200
+	v.Label("chunks=%d", nchunks)
+	var ports []gram.PortRange
+	for i := 0; i < c.NRanges; i++ {
+		ports = append(ports, gram.PortRange{Start: uint16(2000 + 5*i), End: uint16(2000 + 5*i)})
+	}
+	srcs := []uint32{10<<24 | 9<<16 | 0, 10<<24 | 9<<16 | 1}
+	dst := [4]byte{10, 250, 0, 1}
+	frameFor := func(k int) ([]byte, string) {
+		src := srcs[k%2]
+		port := ports[(k/2)%len(ports)].Start
+		s4 := gram.U32Bytes(src)
+		fl := c03ChunkFlags(port ^ uint16(k%2))
+		if kind == "tcpsyn" {
+			fl = wire.SYN | wire.ACK
+		}
+		body := wire.IPv4{ID: uint16(k), Flags: 2, TTL: 61, Proto: wire.ProtoTCP, Src: s4, Dst: dst}.Bytes(wire.TCP{SrcPort: port, DstPort: 40000, Flags: fl, Window: 100}.Bytes(s4, dst, nil))
+		fr := append(wire.Eth{Dst: [6]byte{2, 0, 0, 0, 0, 1}, Src: [6]byte{2, 5, 5, 5, 5, 5}, Type: wire.EtherIPv4}.Bytes(), body...)
+		sc := shape.Scan{Kind: kind, Ethernet: true, Subnet: &gram.Prefix{Base: 10<<24 | 9<<16, Bits: 31, Addr: 10<<24 | 9<<16}, Ports: ports, AllPorts: ports}
+		verdict, key := shape.Classify(sc, fr)
+		if verdict != shape.Yes {
+			return nil, ""
+		}
+		return fr, key
+	}
+	var mu sync.Mutex
+	injected := map[string]int{}
+	accepted := map[string]int{}
+	next := 0
+	var harness string
+	sc := vwire.Scenario{OnWrite: func(w *vwire.World, s *vwire.Socket, wr *vwire.Write) error {
+		for i := 0; i < c.PerWrite; i++ {
+			mu.Lock()
+			k := next
+			next += 7 // stride over the port list: every chunk's ports keep coming
+			mu.Unlock()
+			fr, key := frameFor(k)
+			if fr == nil {
+				mu.Lock()
+				harness = "a generated frame is not reply-shaped"
+				mu.Unlock()
+				continue
+			}
+			n := w.InjectOpen(fr)
+			mu.Lock()
+			injected[key]++
+			accepted[key] += n
+			mu.Unlock()
+		}
+		return nil
+	}}
+	files := &cmdFiles{}
+	defer files.cleanup()
+	args := append([]string{}, strings.Fields(c.Cmd)...)
+	args = append(args, "-i", "lo", "--srcip", c01SrcIP, "--srcmac", c01SrcMAC, "--json", "--exit-delay", "40ms", "--gwmac", c01GwMAC, "-a", files.write("arpcache", ""),
+		"-p", renderPorts(ports), "10.9.0.0/31")
+	res := runCmd(cmdRun{Args: args, Seed: c.Seed, World: vwire.NewWorld(sc), Timeout: 120 * time.Second})
+	line := "sx " + clipN(strings.Join(args, " "), 300)
+	if res.Hung || res.Err != nil {
+		return v.Failf("%s: hung=%v err=%v\nstderr: %s", line, res.Hung, res.Err, clipN(res.Stderr, 600))
+	}
+	if harness != "" {
+		return v.Failf("harness: %s", harness)
+	}
+	got := map[string]int{}
+	for _, l := range strings.Split(strings.TrimSuffix(res.Stdout, "\n"), "\n") {
+		if l == "" {
+			continue
+		}
+		k, err := recordKey(kind, l)
+		if err != nil {
+			return v.Failf("%s: %v", line, err)
+		}
+		got[k]++
+	}
+	var extra, miss []string
+	total := 0
+	for k, n := range got {
+		total += n
+		if n > accepted[k] {
+			if injected[k] == 0 {
+				extra = append(extra, fmt.Sprintf("%s x%d (no such frame was ever injected)", k, n))
+			} else {
+				extra = append(extra, fmt.Sprintf("%s x%d (a socket filter accepted such a frame %d times)", k, n, accepted[k]))
+			}
+		}
+	}
+	// a frame accepted by a socket's filter while the socket was open arrived before the scan exited: it must be reported
+	for k, n := range accepted {
+		if got[k] < n {
+			miss = append(miss, fmt.Sprintf("%s x%d", k, n-got[k]))
+		}
+	}
+	if len(extra) > 0 || len(miss) > 0 {
+		sort.Strings(extra)
+		sort.Strings(miss)
+		return v.Failf("%s\n%d port ranges = %d chunks; replies for ports of all chunks injected into every open socket at every probe: surplus/garbled records %v; accepted by a filter but not reported %v", line, c.NRanges, nchunks, clipList(extra, 4), clipList(miss, 4))
+	}
+	v.NonTrivial = nchunks >= 2 && total > 0
+	return v
+}
+
+func TestC03Chunks(t *testing.T) {
+	kit.Run(t, kit.Spec[c03ChunkCase]{
+		Prop: "C03",
+		Rule: "tcp fin / tcp syn / tcp --flags with 150..650 single-port ranges (1..4 chunks = sockets with their own filters) over two targets on the virtual wire (race detector on): at every probe write 1..4 reply frames for ports striding over ALL chunks (distinct flag sets as a function of port and source) are injected into every socket open at that moment. Oracle: every record is field-for-field one of the injected frames, and the records are exactly the frames that some open socket's filter accepted (multiset) - nothing garbled, doubled or lost whatever the chunks do. non-trivial: >=2 chunks and >=1 record; distinct by case",
+		Gen: func(t *rapid.T) c03ChunkCase {
+			return c03ChunkCase{Cmd: rapid.SampledFrom([]string{"tcp fin", "tcp fin", "tcp syn", "tcp --flags fin,ack"}).Draw(t, "cmd"), NRanges: rapid.SampledFrom([]int{150, 201, 401, 650}).Draw(t, "nranges"),
+				PerWrite: rapid.IntRange(1, 4).Draw(t, "per-write"), Seed: rapid.Int64().Draw(t, "seed")}
+		},
+		Check: c03ChunkCheck,
 	})
 }
